@@ -30,6 +30,7 @@ import   "github.com/pbenner/autodiff/statistics/vectorDistribution"
 import . "github.com/pbenner/autodiff/logarithmetic"
 
 import . "github.com/pbenner/threadpool"
+import   "github.com/pbenner/autodiff/verifhook"
 
 /* -------------------------------------------------------------------------- */
 
@@ -790,6 +791,8 @@ func (obj *sagaLogisticRegressionL1) Execute(
       obj.Indices[i] = obj.rand.Intn(len(obj.Indices))
     }
     if err := obj.Pool.RangeJob(0, len(obj.Workers), func(i int, pool ThreadPool, erf func() error) error {
+      verifhook.Yield("vectorEstimator.logisticRegression.job")
+      verifhook.Event("vectorEstimator.logisticRegression", i, pool.GetThreadId())
       return obj.Workers[i].Iterate(epoch)
     }); err != nil {
       return x1, obj.rand.Int63(), err
